@@ -11,7 +11,7 @@ forwarded).  Which variant the code under test implements is decided by one prob
 (`probe_cfg`); the *oracle* below never looks at the model and reports every clone that does not carry a
 supplied value / does not inherit an unsupplied one.
 """
-import contextlib, io, itertools, json, math, os, shutil, struct, tempfile
+import contextlib, io, itertools, json, math, os, shutil, struct, tempfile, time
 from harness import common
 
 CLONE_PARAMS = ["player", "unit_const", "x", "y", "z", "rotation", "garrisoned_in_id", "animation_frame", "status"]
@@ -60,6 +60,7 @@ class H:
         self.sessions = []
         self.cfg = (0, 0)
         self.reported = set()
+        self.shrink_deadline = float("inf")
 
 
 class Session:
@@ -67,11 +68,12 @@ class Session:
 
     `record=False` (shrinking / probing): nothing is queued for the driver, violations are kept locally."""
 
-    def __init__(self, h, scn, keep, pre=(), counter=None, record=True, label="seq"):
+    def __init__(self, h, scn, keep, pre=(), counter=None, record=True, label="seq", kindinfo=None):
         from AoE2ScenarioParser.datasets.players import PlayerId
         self.PlayerId = PlayerId
         self.h, self.scn, self.um, self.record, self.label = h, scn, scn.unit_manager, record, label
         self._viol = {}
+        self.kindinfo = kindinfo or {"kind": "seq"}
         self.ops = []
         self.pre = list(pre)
         um = self.um
@@ -128,7 +130,7 @@ class Session:
     @property
     def violations(self):
         return [{"signature": sig, "what": what, "occurrences": cnt,
-                 "replay": {"kind": "seq", "label": self.label, "pre": self.pre, "ops": list(self.ops[:n])}}
+                 "replay": dict(self.kindinfo, label=self.label, pre=self.pre, ops=list(self.ops[:n]))}
                 for sig, what, n, cnt in self._viol.values()]
 
     def new_obj(self, u):
@@ -542,42 +544,35 @@ def probe_cfg(h, scn):
     return (1 if c.x == 0 else 0, 1 if c.caption_string_id == 77 else 0)
 
 
-def shrink(h, scn, viol, budget=250):
-    """greedy op removal keeping a violation with the same signature (sessions on the emptied live manager)"""
+def shrink(h, scn, viol):
+    """greedy removal of operations / clone arguments keeping a violation with the same signature"""
     rp = viol["replay"]
-    if rp.get("kind") != "seq":
-        return viol
     key = json.dumps(viol["signature"], sort_keys=True)
     pre, ops = list(rp.get("pre", [])), list(rp["ops"])
+    budget = [30 if (rp.get("kind") == "file" or rp.get("fresh")) else 250]    # those cost a scenario load each
 
     def fails(pre_, ops_):
-        s = replay_seq(h, scn, pre_, ops_, record=False)
+        if budget[0] <= 0 or time.time() > h.shrink_deadline:
+            return None
+        budget[0] -= 1
+        s = replay(h, scn, dict(rp, pre=pre_, ops=ops_), record=False)
         return next((v for v in s.violations if json.dumps(v["signature"], sort_keys=True) == key), None)
 
     best = fails(pre, ops)
     if best is None:
         return viol
-    i = len(ops) - 2
-    while i >= 0 and budget > 0:
-        budget -= 1
+    for i in range(len(ops) - 2, -1, -1):
         cand = ops[:i] + ops[i + 1:]
         v = fails(pre, cand)
         if v is not None:
             ops, best = cand, v
-        i -= 1
     for i in range(len(pre) - 1, -1, -1):
-        if budget <= 0:
-            break
-        budget -= 1
         cand = pre[:i] + pre[i + 1:]
         v = fails(cand, ops)
         if v is not None:
             pre, best = cand, v
     if ops and ops[-1][0] == "clone":             # drop clone arguments that are not needed for the failure
         for k in sorted(ops[-1][2]):
-            if budget <= 0:
-                break
-            budget -= 1
             c = {a: b for a, b in ops[-1][2].items() if a != k}
             cand = ops[:-1] + [["clone", ops[-1][1], c]]
             v = fails(pre, cand)
@@ -588,16 +583,52 @@ def shrink(h, scn, viol, budget=250):
     return best
 
 
-def replay_seq(h, scn, pre, ops, record=True, label="replay"):
+def fresh_scenario():
+    from AoE2ScenarioParser.scenarios.aoe2_de_scenario import AoE2DEScenario
+    with contextlib.redirect_stdout(io.StringIO()):
+        sc = AoE2DEScenario.from_default()
+    return sc, int(sc.sections['DataHeader'].next_unit_id_to_place)
+
+
+def replay(h, scn, rp, record=True, label="replay"):
+    """re-run a recorded history.  kind "seq": `pre` re-creates the units that were there, then `ops`, on the shared
+    live manager (`savefile` becomes the plain property read – a shared scenario object is written at most never) or,
+    with "fresh", on a scenario of its own (`savefile` is a real write).  kind "file": `pre` runs on a fresh
+    scenario and ends with `savefile`; `ops` run on the manager of the reloaded file."""
+    pre, ops = rp.get("pre", []), rp.get("ops", [])
+    if rp.get("kind") == "file":
+        sc, k = fresh_scenario()
+        a = Session(h, sc, keep=False, counter=k, record=False, label="pre")
+        r = None
+        for op in pre:
+            x = a.do(op)
+            if op[0] == "savefile":
+                r = x
+                break
+        if r is None:
+            return a
+        t = Session(h, r[0], keep=True, counter=r[1], pre=pre, record=record, label=label, kindinfo={"kind": "file"})
+        for op in ops:
+            if op[0] != "savefile":
+                t.do(op)
+        return t
+    if rp.get("fresh"):
+        sc, k = fresh_scenario()
+        s = Session(h, sc, keep=False, counter=k, record=record, label=label, kindinfo={"kind": "seq", "fresh": True})
+        written = False
+        for op in ops:
+            s.do(["save"] if (op[0] == "savefile" and written) else op)
+            written = written or op[0] == "savefile"
+        return s
     if pre:
         s0 = Session(h, scn, keep=False, record=False, label="pre")
         for op in pre:
-            s0.do(op)
+            s0.do(["save"] if op[0] == "savefile" else op)
         s = Session(h, scn, keep=True, pre=pre, record=record, label=label)
     else:
         s = Session(h, scn, keep=False, record=record, label=label)
     for op in ops:
-        s.do(["save"] if op[0] == "savefile" else op)     # replays never write a second file from the shared scenario
+        s.do(["save"] if op[0] == "savefile" else op)
     return s
 
 
@@ -628,8 +659,8 @@ def run(ctx):
         # ---- corpus / replay first -------------------------------------------------------------------
         for c in ctx.corpus():
             rp = c.get("replay", c)
-            if rp.get("kind") == "seq":
-                replay_seq(h, scn, rp.get("pre", []), rp.get("ops", []), label="corpus")
+            if rp.get("kind") in ("seq", "file"):
+                replay(h, scn, rp, label="corpus")
 
         # ---- (a) exhaustive clone ---------------------------------------------------------------------
         def source(s, variant):
@@ -682,20 +713,20 @@ def run(ctx):
 
         # ---- (c) real files: ops, ONE write, reload, ops on both ------------------------------------------------
         for i in range(ctx.budget(20, 150)):
-            with contextlib.redirect_stdout(io.StringIO()):
-                sc = AoE2DEScenario.from_default()
-            s = Session(h, sc, keep=False, counter=int(sc.sections['DataHeader'].next_unit_id_to_place), label=f"file{i}a")
+            sc, k0 = fresh_scenario()
+            s = Session(h, sc, keep=False, counter=k0, label=f"file{i}a", kindinfo={"kind": "seq", "fresh": True})
             for _ in range(rng.choice([3, 10, 25])):
                 op = rnd_op(rng, s)
                 if op[0] == "add" and op[1]["reference_id"] is not None and rng.random() < 0.7:
                     op[1]["reference_id"] = None          # keep most files within `counter > every id`
                 s.do(op)
             r = s.do(["savefile"])
+            ops_to_save = list(s.ops)
             for _ in range(rng.choice([0, 4, 10])):
                 s.do(rnd_op(rng, s))
             if r is not None:
                 s2scn, v = r
-                t = Session(h, s2scn, keep=True, counter=v, label=f"file{i}b")
+                t = Session(h, s2scn, keep=True, counter=v, pre=ops_to_save, label=f"file{i}b", kindinfo={"kind": "file"})
                 R.dist["file-session:" + ("counter>ids" if t.pre_ok else "counter<=some id (explicit ids)")] += 1
                 for _ in range(rng.choice([5, 15, 30])):
                     t.do(rnd_op(rng, t))
@@ -706,6 +737,7 @@ def run(ctx):
         for v in allv:
             key = json.dumps(v["signature"], sort_keys=True)
             seen.setdefault(key, []).append(v)
+        h.shrink_deadline = time.time() + (20 if ctx.quick else 90)      # shrinking is best effort, never the bulk of a run
         for key, vs in seen.items():
             v = min(vs, key=lambda z: len(z["replay"]["ops"]) + len(z["replay"].get("pre", [])))
             v = shrink(h, scn, v)
@@ -725,7 +757,7 @@ def run(ctx):
                     s = h.sessions[m[0]] if m[0] >= 0 else None
                     rp = {"cmd": cmd}
                     if s is not None:
-                        rp.update({"kind": "seq", "label": s.label, "pre": s.pre, "base": s.base, "ops": s.ops[:m[1] + 1]})
+                        rp.update(dict(s.kindinfo, label=s.label, pre=s.pre, base=s.base, ops=s.ops[:m[1] + 1]))
                     R.mismatch(cmd[:200], rp, impl=x[:2000], model=o[:2000])
         else:
             R.extra["driver"] = "unavailable (Lean build failed) - oracles only"
